@@ -33,7 +33,11 @@ func zz_readTrees(file string) (goio.Closer, <-chan tree.Trees, error) {
 	return zzCloser{}, ch, nil
 }
 
-func zz_openWriteFile(file string) (*os.File, error) { return nil, nil }
+// the output file of the command bodies under the symbolic executor: writes to
+// it are collected in memory (sxOutput)
+var zzSinkFile = &os.File{}
+
+func zz_openWriteFile(file string) (*os.File, error) { return zzSinkFile, nil }
 
 func zz_closeWriteFile(f goio.Closer, filename string) {}
 
